@@ -13,3 +13,14 @@ pub open spec fn spec_infix(kind: TokenKind) -> int {
     _ => 0,
   }
 }
+/// the tokens that spell a binary / a prefix operator
+pub open spec fn is_binop_token(k: TokenKind) -> bool {
+  k is BangEqual || k is EqualEqual || k is Greater || k is GreaterEqual || k is Less || k is LessEqual || k is Plus || k is Minus || k is Star || k is Slash
+}
+pub open spec fn is_unop_token(k: TokenKind) -> bool { k is Minus || k is Bang || k is LeftArrow }
+/// the infix parse action the grammar gives a token — what kani:front/o01_p_infix_action proves of the real INFIX_TABLE
+pub open spec fn spec_infix_action(k: TokenKind) -> Option<Infix> {
+  if k is Or { Some(Infix::Or) } else if k is And { Some(Infix::And) } else if is_binop_token(k) { Some(Infix::Binary) }
+  else if k is QuestionMark { Some(Infix::Ternary) } else if k is LeftParen { Some(Infix::Call) } else if k is LeftBracket { Some(Infix::Index) }
+  else if k is Dot { Some(Infix::Dot) } else { None }
+}
